@@ -13,15 +13,19 @@ LEAN_RESERVED = {
     "using", "calc", "suffices", "obtain", "exact", "nomatch", "nofun", "some", "none", "true",
     "false", "max", "min", "id", "default", "this",
 }
-CTX_RESERVED = {"bits", "w", "W", "BITMASK_STRIDE", "BITMASK_MASK", "BITMASK_ITER_MASK", "self_"}
+CTX_RESERVED = {"bits", "w", "W", "BITMASK_STRIDE", "BITMASK_MASK", "BITMASK_ITER_MASK", "self_", "T_size", "T_align"}
 
 NAT_WIDTH = {"usize": "bits", "isize": "bits", "u64": "64", "i64": "64", "u32": "32", "i32": "32",
              "u16": "16", "i16": "16", "u8": "8", "i8": "8"}
-CTX_ORDER = ["bits", "Group::WIDTH", "BITMASK_STRIDE", "BITMASK_MASK", "BITMASK_ITER_MASK"]
+# `T::SIZE` / `T::ALIGN`: `mem::size_of::<T>()` / `mem::align_of::<T>()` of the element type parameter `T` of
+# raw/mod.rs (pointer arithmetic on `*mut T` / `NonNull<T>` is arithmetic on abstract addresses in units of `T_size`)
+CTX_ORDER = ["bits", "Group::WIDTH", "T::SIZE", "T::ALIGN", "BITMASK_STRIDE", "BITMASK_MASK", "BITMASK_ITER_MASK"]
 CTX_LEAN = {"bits": ("bits", "Nat"), "Group::WIDTH": ("W", "Nat"), "BITMASK_STRIDE": ("BITMASK_STRIDE", "Nat"),
-            "BITMASK_MASK": ("BITMASK_MASK", "BitVec w"), "BITMASK_ITER_MASK": ("BITMASK_ITER_MASK", "BitVec w")}
+            "BITMASK_MASK": ("BITMASK_MASK", "BitVec w"), "BITMASK_ITER_MASK": ("BITMASK_ITER_MASK", "BitVec w"),
+            "T::SIZE": ("T_size", "Nat"), "T::ALIGN": ("T_align", "Nat")}
 CTX_RTYPE = {"bits": "usize", "Group::WIDTH": "usize", "BITMASK_STRIDE": "usize",
-             "BITMASK_MASK": "BitMaskWord", "BITMASK_ITER_MASK": "BitMaskWord"}
+             "BITMASK_MASK": "BitMaskWord", "BITMASK_ITER_MASK": "BitMaskWord",
+             "T::SIZE": "usize", "T::ALIGN": "usize"}
 
 # Target assumptions used to resolve `cfg!(...)` (documented in T1_NOTES.md).
 CFG_FACTS = {'target_arch="arm"': False}
@@ -45,8 +49,9 @@ def I(n):
 
 
 class FileCfg:
-    def __init__(self, key, path, prefix="", bv_types=(), bv_width=None, paths=None, abstractions=()):
+    def __init__(self, key, path, prefix="", bv_types=(), bv_width=None, paths=None, abstractions=(), elem_param=None):
         self.key = key
+        self.elem_param = elem_param       # name of the element type parameter (`T` in raw/mod.rs) or None
         self.path = path
         self.prefix = prefix
         self.bv_types = set(bv_types)
@@ -60,6 +65,7 @@ class World:
 
     def __init__(self):
         self.structs = {}    # name -> [(field, rust type name)]      (named-field structs we emit)
+        self.struct_all = {}  # name -> [every field name of the Rust struct]  (only for `only=` views)
         self.newtypes = {}   # name -> inner rust type (normalized)
         self.fns = {}        # (SelfType|None, name) -> dict(lean, ctx, abs, ret, has_self, file)
         self.consts = {}     # (filekey|None, 'A::B') -> (lean name, rust type)
@@ -115,11 +121,15 @@ class FnTranslator:
                 return self.self_type
             if name == "Option" and len(ty[2]) == 1:
                 return ("Option", self.norm_type(ty[2][0]))
+            if name == "NonNull" and len(ty[2]) == 1:
+                return ("ptr", self.norm_type(ty[2][0]))
             return name
         if ty[0] == "tytuple":
             return ("tuple", tuple(self.norm_type(t) for t in ty[1]))
         if ty[0] == "tyref":
             return self.norm_type(ty[1])
+        if ty[0] == "typtr":
+            return ("ptr", self.norm_type(ty[1]))
         return None
 
     def resolve_newtype(self, t):
@@ -132,6 +142,8 @@ class FnTranslator:
     def tclass(self, t):
         """normalized rust type -> ('bv', width) | ('nat', width) | ('bool',) | None"""
         t = self.resolve_newtype(t)
+        if isinstance(t, tuple) and t[0] == "ptr":
+            return ("ptr", t[1])
         if not isinstance(t, str):
             return None
         if t in self.f.bv_types:
@@ -148,6 +160,8 @@ class FnTranslator:
         if isinstance(t, tuple):
             if t[0] == "Option":
                 return "(Option %s)" % self.lean_type(t[1])
+            if t[0] == "ptr":
+                return "Nat"          # an abstract address
             if t[0] == "tuple":
                 if not t[1]:
                     return "Unit"
@@ -236,6 +250,13 @@ class FnTranslator:
                 return rt[1] if isinstance(rt, tuple) and rt[0] == "Option" else None
             if e[2] == "get":
                 return rt
+            if isinstance(rt, tuple) and rt[0] == "ptr":
+                if e[2] in ("as_ptr", "sub", "add", "wrapping_sub", "wrapping_add"):
+                    return rt
+                if e[2] == "cast":
+                    return ("ptr", None)          # pointee chosen by the context
+                if e[2] == "offset_from":
+                    return "isize"
             return None
         if k == "call":
             f = e[1]
@@ -264,11 +285,17 @@ class FnTranslator:
                     return ("Option", segs[0])
                 if segs[-1] == "new_unchecked" and segs[0].startswith("NonZero"):
                     return segs[0]
+                if j == "NonNull::new_unchecked" and len(e[2]) == 1:
+                    return self.stype(e[2][0])
+                if j == "invalid_mut" and len(e[2]) == 1:
+                    return ("ptr", None)
+                if j in ("mem::align_of", "core::mem::align_of"):
+                    return "usize"
             return None
         if k == "if":
             t = self.stype(e[2]) if e[2][0] == "block" else None
-            if t is None and e[3] is not None:
-                t = self.stype(e[3])
+            if (t is None or t == ("ptr", None)) and e[3] is not None:
+                t = self.stype(e[3]) or t
             return t
         if k == "block":
             # the tail may mention locals of the block: those are unknown here and give None
@@ -298,6 +325,10 @@ class FnTranslator:
                 if probe:
                     return (CTX_LEAN[r[1]][0], CTX_RTYPE[r[1]])
                 return (self.use_ctx(r[1]), CTX_RTYPE[r[1]])
+            if r[0] == "ctxexpr":
+                # an expression over a context parameter, e.g. `T::IS_ZERO_SIZED` = `(T_size == 0)`
+                nm = CTX_LEAN[r[1]][0] if probe else self.use_ctx(r[1])
+                return (r[2].replace("{ctx}", nm), r[3])
             if r[0] == "prelude":
                 expr = r[1]
                 if "{bits}" in expr:
@@ -430,6 +461,11 @@ class FnTranslator:
             src = tgt       # untyped literal: takes the target type
         if src[0] == "bool":
             self.err("cast from bool is not supported")
+        if src[0] == "ptr":
+            # `p as usize`: the address itself
+            if tgt != ("nat", "bits"):
+                self.err("cast of a pointer to `%s` (only `as usize` is supported)" % (tgt_t,))
+            return inner
         if src[0] == "nat" and tgt[0] == "nat":
             return "(rs_cast %s %s)" % (self.width(tgt[1]), inner)
         if src[0] == "bv" and tgt[0] == "bv":
@@ -475,6 +511,8 @@ class FnTranslator:
             if g["opaque_self"] and recv == ("path", ("self",), None):
                 return self.gen_call(g, None, la)
             self.err("method `%s` cannot be called on this receiver" % name)
+        if isinstance(rt, tuple) and rt[0] == "ptr":
+            return self.ptr_method(recv, rt, name, args)
         c = self.class_of([recv] + list(args), expect)
         rt_res = self.resolve_newtype(rt)
         n = len(args)
@@ -500,6 +538,42 @@ class FnTranslator:
         if name == "get" and n == 0 and isinstance(rt_res, str) and rt_res.startswith("NonZero"):
             return self.tr_expr(recv)
         self.err("unsupported method call `.%s(..)` (receiver type %s)" % (name, rt))
+
+    def pointee_size(self, rt, what):
+        """size of the pointee of a pointer type in the units of the address model: `T` -> T_size, `u8` -> 1"""
+        el = rt[1]
+        if el is not None and el == self.f.elem_param:
+            return self.use_ctx("T::SIZE")
+        if el == "u8":
+            return None
+        self.err("%s on a pointer whose pointee type (%s) is not the element type parameter or `u8`" % (what, el))
+
+    def ptr_method(self, recv, rt, name, args):
+        """methods of `NonNull<X>` / `*mut X` / `*const X` on abstract addresses (X = the element type
+        parameter, scaled by `T_size`, or `u8`, unscaled): unchecked `sub` is truncated, `add` exact
+        (overflow-freedom / in-bounds-ness is outside T1), the `wrapping_*` forms wrap at `2^bits`."""
+        n = len(args)
+        if name == "as_ptr" and n == 0:
+            return self.tr_expr(recv)
+        if name == "cast" and n == 0:
+            return self.tr_expr(recv)
+        if name in ("sub", "add", "wrapping_sub", "wrapping_add") and n == 1:
+            sz = self.pointee_size(rt, "`.%s(..)`" % name)
+            p, k = self.tr_expr(recv), self.tr_expr(args[0], "usize")
+            off = k if sz is None else "(%s * %s)" % (k, sz)
+            if name == "sub":
+                return "(%s - %s)" % (p, off)
+            if name == "add":
+                return "(%s + %s)" % (p, off)
+            return "(rs_%s %s %s %s)" % (name, self.use_ctx("bits"), p, off)
+        if name == "offset_from" and n == 1:
+            ot = self.stype(args[0])
+            if not (isinstance(ot, tuple) and ot[0] == "ptr" and ot[1] == rt[1]):
+                self.err("`.offset_from(..)` between pointers of different / unknown pointee types")
+            sz = self.pointee_size(rt, "`.offset_from(..)`")
+            d = "(%s - %s)" % (self.tr_expr(recv), self.tr_expr(args[0]))
+            return d if sz is None else "(%s / %s)" % (d, sz)
+        self.err("unsupported pointer method `.%s(..)` (receiver type %s)" % (name, rt))
 
     def x_call(self, e, expect):
         f, args = e[1], e[2]
@@ -539,6 +613,20 @@ class FnTranslator:
             if not c or c[0] != "nat":
                 self.err("`%s` on arguments that are not known unsigned integers" % j)
             return "(rs_%s %s %s)" % (segs[-1], self.tr_expr(args[0], t), self.tr_expr(args[1], t))
+        if j == "invalid_mut" and len(args) == 1 and targs is None:
+            # `util::invalid_mut(addr)`: the pointer with address `addr`
+            return self.tr_expr(args[0], "usize")
+        if j == "NonNull::new_unchecked" and len(args) == 1 and targs is None:
+            at = self.stype(args[0])
+            if not (isinstance(at, tuple) and at[0] == "ptr"):
+                self.err("`NonNull::new_unchecked(..)` on an argument that is not known to be a pointer")
+            return self.tr_expr(args[0])
+        if j in ("mem::align_of", "core::mem::align_of") and not args and targs and len(targs) == 1 \
+                and self.f.elem_param is not None and self.norm_type(targs[0]) == self.f.elem_param:
+            return self.use_ctx("T::ALIGN")
+        if j in ("mem::size_of", "core::mem::size_of") and not args and targs and len(targs) == 1 \
+                and self.f.elem_param is not None and self.norm_type(targs[0]) == self.f.elem_param:
+            return self.use_ctx("T::SIZE")
         if j in ("mem::size_of", "core::mem::size_of") and not args and targs and len(targs) == 1:
             t = self.norm_type(targs[0])
             c = self.tclass(t)
@@ -585,10 +673,12 @@ class FnTranslator:
             self.err("struct literal of unknown struct `%s`" % name)
         want = [f for f, _ in self.w.structs[name]]
         got = [f for f, _ in e[2]]
-        if sorted(want) != sorted(got):
-            self.err("struct literal `%s` fields %s do not match definition %s" % (name, got, want))
+        # a view (`only=`) of a Rust struct: the literal must name every field of the RUST struct, the
+        # initializers of the fields outside the view are not translated
+        if sorted(self.w.struct_all.get(name, want)) != sorted(got):
+            self.err("struct literal `%s` fields %s do not match definition %s" % (name, got, self.w.struct_all.get(name, want)))
         ftypes = dict(self.w.structs[name])
-        fs = ", ".join("%s := %s" % (f, self.tr_expr(v, ftypes[f])) for f, v in e[2])
+        fs = ", ".join("%s := %s" % (f, self.tr_expr(v, ftypes[f])) for f, v in e[2] if f in ftypes)
         return "({ %s } : %s)" % (fs, name)
 
     def x_closure(self, e, expect):
